@@ -1,6 +1,7 @@
 import BU.Properties.C11
 import BU.Properties.C11_Detect
 import BU.Properties.C11_Gen
+import BU.Properties.C11_GenAddr
 import BU.Properties.C11_GenTop
 #print axioms C11.consts_tie
 #print axioms C11.segwit_prefixes
@@ -25,6 +26,12 @@ import BU.Properties.C11_GenTop
 #print axioms C11Gen.gen_verify_checksum
 #print axioms C11Gen.gen_create_checksum
 #print axioms C11Gen.gen_convertbits
+#print axioms C11GenAddr.ints_of_bytes
+#print axioms C11GenAddr.gen_segwit_to_string
+#print axioms C11GenAddr.bytesOfInts_nat
+#print axioms C11GenAddr.gen_segwit_address_to_hash
+#print axioms C11GenAddr.gen_segwit_roundtrip
+#print axioms C11GenAddr.gen_segwit_accept_sound
 #print axioms C11GenTop.lowerA_eq
 #print axioms C11GenTop.upperA_eq
 #print axioms C11GenTop.any_eq
